@@ -233,7 +233,7 @@ Theorem class_members_read impl dec t bs aux :
     R.skip_members s5 = Ok s6 /\ R.skip_members s6 = Ok s7 /\ R.skip_attrs s7 = Ok [].
 Proof.
   intros Hok Hw Hgate Hdec.
-  destruct (class_read_base impl dec t bs aux Hok Hw Hgate Hdec) as (cs & fields & mbytes & abytes & fs & ms & ds & Ecs & Hag & Hhead & Hfs & Hms & Df & Dm & Da).
+  destruct (class_read_base impl dec t bs aux Hok Hw Hgate Hdec) as (cs & fields & mbytes & abytes & fs & ms & ds & Ecs & Hag & Hhead & Hfs & Hms & Df & Dm & Da & _).
   pose proof (Df _ _ (mbytes ++ abytes) (pool_ext_refl _) Hag) as Pf.
   pose proof (Dm _ _ abytes (pool_ext_refl _) Hag) as Pm.
   pose proof (Da _ _ [] (pool_ext_refl _) Hag) as Pa. rewrite app_nil_r in Pa.
